@@ -78,7 +78,7 @@ class Loaded(dict):
         raise AttributeError(name)
 
 
-def load(modnames, overrides=None, patches=None, extra=None, keep=("np",)) -> Loaded:
+def load(modnames, overrides=None, patches=None, extra=None, keep=("np",), keep_cache=False) -> Loaded:
     """Load acryo modules from source.  Returns Loaded{modname: module}."""
     import acryo  # noqa: F401  (genuine import first)
     import acryo.alignment, acryo.loader, acryo.molecules, acryo.pipe, acryo.pick  # noqa
@@ -91,7 +91,8 @@ def load(modnames, overrides=None, patches=None, extra=None, keep=("np",)) -> Lo
     loaded = Loaded()
     saved = {}
     real_lru = functools.lru_cache
-    functools.lru_cache = _identity_lru_cache
+    if not keep_cache:
+        functools.lru_cache = _identity_lru_cache
     try:
         for name in modnames:
             src = source_of(name)
@@ -109,7 +110,8 @@ def load(modnames, overrides=None, patches=None, extra=None, keep=("np",)) -> Lo
             code = compile(src, path, "exec")
             saved[name] = sys.modules.get(name)
             sys.modules[name] = mod
-            mod.__dict__["lru_cache"] = _identity_lru_cache
+            if not keep_cache:
+                mod.__dict__["lru_cache"] = _identity_lru_cache
             exec(code, mod.__dict__)
             loaded[name] = mod
     finally:
